@@ -1,2 +1,169 @@
-/- placeholder driver for C02: replaced when the check for C02 is built -/
-def main : IO Unit := IO.println "not-built"
+import CashewsVerif.Driver.Proto
+import CashewsVerif.Model.Decor.Simple
+import CashewsVerif.Model.Decor.Iterator
+import CashewsVerif.Model.Ttl
+/-
+Driver for C02: the simple-cache model, the iterator model and the TTL model behind one line protocol.
+
+  simple <cond> <ttl>      start a simple-cache case            -> ok
+  script <beh>*            behaviour of execution 0,1,…         -> ok      beh  = (v|n|f<j>|e<c>)[:<dur>]   (beyond the list: v:0)
+  iter <cond> <ttl>        start an iterator case               -> ok
+  runs <run>*              body of run 0,1,…                    -> ok      run  = <step>,<step>,…/<findur>  (steps `-` = none); step = beh
+  adv <dt>                 time passes                          -> ok
+  call <k>                 simple: a call with key k            -> model=<res> hit|run
+  it <k>                   iterator: a drained call with key k  -> model=<res>,<res>,…|- hit|run
+  ttl <ttl>  [<k> <r>]     ttl_to_seconds of a spelling         -> model=<ticks>|E
+
+  cond = all | nn | we:<c>+<c>… | oe:<c>+… | tc:<limit> | fn:<6 letters T F y z X for val,none,falsy,exc0,exc1,exc2>
+  ttl  = plain | ck:<plain>,<plain>,… (callable of the key; last repeats) | cr:<plain>×4 (callable of the result kind val,none,falsy,exc)
+  plain = i<secs> | f<ticks> | d<ticks> | s<hex of the ascii string>
+-/
+open CashewsVerif CashewsVerif.Proto CashewsVerif.Decor
+
+def hexVal (c : Char) : Option Nat :=
+  if c.isDigit then some (c.toNat - '0'.toNat)
+  else if 'a' ≤ c ∧ c ≤ 'f' then some (c.toNat - 'a'.toNat + 10) else none
+
+def unhex : List Char → Option (List Char)
+  | [] => some []
+  | a :: b :: rest => do
+    let x ← hexVal a; let y ← hexVal b; let r ← unhex rest
+    pure (Char.ofNat (16 * x + y) :: r)
+  | _ => none
+
+def parsePlain? (s : String) : Option Ttl.Plain :=
+  match s.toList with
+  | 'i' :: r => (String.ofList r).toNat?.map .int
+  | 'f' :: r => (String.ofList r).toNat?.map .float
+  | 'd' :: r => (String.ofList r).toNat?.map .delta
+  | 's' :: r => (unhex r).map .str
+  | _ => none
+
+def nthOrLast {α} (d : α) : List α → Nat → α
+  | [], _ => d
+  | [a], _ => a
+  | a :: _, 0 => a
+  | _ :: r, n + 1 => nthOrLast d r n
+
+def parseSpelling? (s : String) : Option Ttl.Spelling :=
+  if s.startsWith "ck:" then do
+    let ps ← allSome (((s.drop 3).toString.splitOn ",").map parsePlain?)
+    if ps.isEmpty then none else pure (.callable fun k _ => nthOrLast (.int 0) ps k)
+  else if s.startsWith "cr:" then do
+    let ps ← allSome (((s.drop 3).toString.splitOn ",").map parsePlain?)
+    if ps.length ≠ 4 then none else pure (.callable fun _ r => nthOrLast (.int 0) ps r)
+  else (parsePlain? s).map .plain
+
+def resIdx : Res → Nat
+  | .val _ _ => 0 | .none => 1 | .falsy _ => 2 | .exc _ _ => 3 | .junk => 0
+
+def parseClasses? (s : String) : Option (List Nat) :=
+  if s = "" then some [] else allSome ((s.splitOn "+").map String.toNat?)
+
+def parseCondRes? : Char → Option CondRes
+  | 'T' => some (.bool true) | 'F' => some (.bool false)
+  | 'y' => some (.other true) | 'z' => some (.other false) | 'X' => some .theExc
+  | _ => none
+
+def kindIdx : Kind → Nat
+  | .val => 0 | .none => 1 | .falsy _ => 2 | .exc c => 3 + c
+
+def parseCnd? (s : String) : Option Decor.Cond :=
+  if s = "all" then some .all
+  else if s = "nn" then some .notNone
+  else if s.startsWith "we:" then (parseClasses? (s.drop 3).toString).map .withExc
+  else if s.startsWith "oe:" then (parseClasses? (s.drop 3).toString).map .onlyExc
+  else if s.startsWith "tc:" then (s.drop 3).toString.toNat?.map .slower
+  else if s.startsWith "fn:" then do
+    let tbl ← allSome ((s.drop 3).toString.toList.map parseCondRes?)
+    if tbl.length ≠ 6 then none else pure (.fn fun k => nthOrLast (.bool true) tbl (kindIdx k))
+  else none
+
+def parseKind? (s : String) : Option Kind :=
+  match s.toList with
+  | ['v'] => some .val
+  | ['n'] => some .none
+  | 'f' :: r => (String.ofList r).toNat?.map .falsy
+  | 'e' :: r => (String.ofList r).toNat?.map .exc
+  | _ => none
+
+def parseBeh? (s : String) : Option Beh :=
+  match s.splitOn ":" with
+  | [k] => (parseKind? k).map (⟨·, 0⟩)
+  | [k, d] => do pure ⟨← parseKind? k, ← d.toNat?⟩
+  | _ => none
+
+def parseRun? (s : String) : Option Iter.IBeh :=
+  match s.splitOn "/" with
+  | [steps, fd] => do
+    let fd ← fd.toNat?
+    if steps = "-" then pure ⟨[], fd⟩
+    else
+      let bs ← allSome ((steps.splitOn ",").map parseBeh?)
+      pure ⟨bs.map fun b => (b.kind, b.dur), fd⟩
+  | _ => none
+
+def showRes : Res → String
+  | .val n i => s!"v{n}.{i}"
+  | .none => "n"
+  | .falsy j => s!"f{j}"
+  | .exc c n => s!"x{c}.{n}"
+  | .junk => "junk"
+
+inductive Mode where
+  | idle
+  | simple (cfg : Simple.Cfg) (script : List Beh) (s : Simple.St)
+  | iter (cfg : Iter.Cfg) (script : List Iter.IBeh) (s : Iter.St)
+
+def ticksOf (sp : Ttl.Spelling) (k r : Nat) : Nat := (sp.ticks k r).getD 0
+
+def step (m : Mode) (line : String) : Mode × String :=
+  match words line with
+  | ["simple", c, t] =>
+    match parseCnd? c, parseSpelling? t with
+    | some cd, some sp => (.simple ⟨cd, fun k r => ticksOf sp k (resIdx r)⟩ [] Simple.St.init, "ok")
+    | _, _ => (m, "bad-op")
+  | ["iter", c, t] =>
+    match parseCnd? c, parseSpelling? t with
+    | some cd, some sp => (.iter ⟨cd, fun k => ticksOf sp k 1⟩ [] Iter.St.init, "ok")   -- `result=None`
+    | _, _ => (m, "bad-op")
+  | "script" :: bs =>
+    match m, allSome (bs.map parseBeh?) with
+    | .simple cfg _ s, some bs => (.simple cfg bs s, "ok")
+    | _, _ => (m, "bad-op")
+  | "runs" :: rs =>
+    match m, allSome (rs.map parseRun?) with
+    | .iter cfg _ s, some rs => (.iter cfg rs s, "ok")
+    | _, _ => (m, "bad-op")
+  | ["adv", dt] =>
+    match m, dt.toNat? with
+    | .simple cfg sc s, some dt => (.simple cfg sc (Simple.step cfg (fun n => sc.getD n ⟨.val, 0⟩) s (.adv dt)).1, "ok")
+    | .iter cfg sc s, some dt => (.iter cfg sc (Iter.step cfg (fun n => sc.getD n ⟨[], 0⟩) s (.adv dt)).1, "ok")
+    | _, _ => (m, "bad-op")
+  | ["call", k] =>
+    match m, k.toNat? with
+    | .simple cfg sc s, some k =>
+      match Simple.step cfg (fun n => sc.getD n ⟨.val, 0⟩) s (.call k) with
+      | (s', .got r cached) => (.simple cfg sc s', s!"model={showRes r} {if cached then "hit" else "run"}")
+      | (s', .unit) => (.simple cfg sc s', "bad-op")
+    | _, _ => (m, "bad-op")
+  | ["it", k] =>
+    match m, k.toNat? with
+    | .iter cfg sc s, some k =>
+      match Iter.step cfg (fun n => sc.getD n ⟨[], 0⟩) s (.iter k) with
+      | (s', .got rs cached) =>
+        let items := if rs.isEmpty then "-" else ",".intercalate (rs.map showRes)
+        (.iter cfg sc s', s!"model={items} {if cached then "hit" else "run"}")
+      | (s', .unit) => (.iter cfg sc s', "bad-op")
+    | _, _ => (m, "bad-op")
+  | ["ttl", t] =>
+    match parseSpelling? t with
+    | some sp => (m, match sp.ticks 0 0 with | some x => s!"model={x}" | none => "model=E")
+    | none => (m, "bad-op")
+  | ["ttl", t, k, r] =>
+    match parseSpelling? t, k.toNat?, r.toNat? with
+    | some sp, some k, some r => (m, match sp.ticks k r with | some x => s!"model={x}" | none => "model=E")
+    | _, _, _ => (m, "bad-op")
+  | _ => (m, "bad-op")
+
+def main : IO Unit := mainLoop step Mode.idle
